@@ -399,8 +399,10 @@ package dnsforward
 //@   requires len(req.Question) > 0 && dnsFilterIdle(s)
 //@   ensures fresh(ans) && ans.Hdr.Name == req.Question[0].Name && ans.Hdr.Rrtype == 5 && ans.Target == dns.Fqdn(cname)
 //@   modifies nothing
+// (C06: the answer to a rewritten name carries the question the client asked - the temporary switch to the CNAME target
+// while the addresses are generated must not leak into the reply)
 //@ func (s *Server) getCNAMEWithIPs(req *dns.Msg, ips []netip.Addr, cname string) (resp *dns.Msg)
-//@   property C01
+//@   property C01, C06
 //@   requires len(req.Question) > 0 && dnsFilterIdle(s)
 //@   ensures localReply(resp, req) && resp.Rcode == 0 && req.Question[0] == old(req.Question[0])
 //@   modifies req.Question[0].Name
